@@ -78,9 +78,8 @@ def spec_of(cfg):
          ('economics.TotalGrant', 'real', -1000, 1000), ('economics.FixedInternalRate', 'real', 0, 100),
          ('economics.inflrateconstruction', 'real', 0, 0.5),      # financing during construction belongs to the levelized cost, not to the cash-flow series
          ('economics.discount_initial_year_cashflow', 'bool', None, None)]
-    if cfg.get('addon'):
-        # the pricing clamps and grants are explored in the configurations without add-ons: here one symbolic flat price per product
-        s = [x for x in s if 'TotalGrant' not in x[0]]
+    # (with add-ons the pricing clamps are explored in the configurations without add-ons: here one symbolic flat price per product;
+    #  the grant stays symbolic: it must enter the adjusted project CAPEX exactly once)
     for p in products_of(cfg['kind']):
         if cfg.get('addon'):
             s += [(f'economics.{p}StartPrice', 'real', 0, 100)]
@@ -127,7 +126,6 @@ def drive(cfg, vals, symbolic):
         for p in products_of(cfg['kind']):
             v[f'economics.{p}EndPrice'] = 100.0
             v[f'economics.{p}EscalationRate'] = 0.0
-        v['economics.TotalGrant'] = 0.0
         for arr in ('TotalkWhProduced', 'NetkWhProduced', 'HeatkWhProduced'):     # the add-on code adds (symbolic) add-on energy into these in place
             cur = getattr(m.surfaceplant, arr).value
             if symbolic and hasattr(cur, '__len__') and not isinstance(cur, core.SymArray):
